@@ -98,6 +98,7 @@ type FuncCtx struct {
 	ceUnroll  int
 	defs      map[string]string
 	views     map[string]string
+	topCall   *ast.CallExpr
 	viewDefs  [][2]string
 	inputArrs []string
 }
@@ -261,6 +262,15 @@ var basicIntRanges = map[string][2]string{
 // heapTyping: every cell of an integer element heap holds a value of its Go type (needed inside quantified specs,
 // where reads are not individually typed).
 func (st *State) heapTyping(name, h string) {
+	if heapHoldsRefs[name] {
+		// every reference stored in the heap is nil or allocated (no dangling references in Go)
+		if strings.HasPrefix(name, "E!") {
+			st.facts = st.facts.push(fmt.Sprintf("(forall ((g_a Int) (g_i Int)) (! (and (<= 0 (select (select %s g_a) g_i)) (< (select (select %s g_a) g_i) %s)) :pattern ((select (select %s g_a) g_i))))", h, h, st.alloc, h))
+		} else if strings.HasPrefix(name, "P!") {
+			st.facts = st.facts.push(fmt.Sprintf("(forall ((g_a Int)) (! (and (<= 0 (select %s g_a)) (< (select %s g_a) %s)) :pattern ((select %s g_a))))", h, h, st.alloc, h))
+		}
+		return
+	}
 	if !strings.HasPrefix(name, "E!") || !strings.HasSuffix(name, "!") {
 		return
 	}
@@ -270,6 +280,13 @@ func (st *State) heapTyping(name, h string) {
 		return
 	}
 	st.facts = st.facts.push(fmt.Sprintf("(forall ((g_a Int) (g_i Int)) (! (and (<= %s (select (select %s g_a) g_i)) (<= (select (select %s g_a) g_i) %s)) :pattern ((select (select %s g_a) g_i))))", r[0], h, h, r[1], h))
+}
+
+func (st *State) noteUnknownWrite(name string) {
+	if r := st.fc.rec; r != nil {
+		r.heaps[name] = true
+		r.unknown[name] = true
+	}
 }
 
 func (st *State) noteWrite(name, idTerm string) {
@@ -310,8 +327,23 @@ func (st *State) heapHavoc(name, sort string) string {
 	return c
 }
 
-func elemHeapName(elem types.Type, c Comp) string { return "E!" + typeKey(elem) + "!" + c.Path }
-func ptrHeapName(pointee types.Type, c Comp) string { return "P!" + typeKey(pointee) + "!" + c.Path }
+// heapHoldsRefs: heaps whose cells are references (pointers / maps): every stored reference is allocated.
+var heapHoldsRefs = map[string]bool{}
+
+func elemHeapName(elem types.Type, c Comp) string {
+	n := "E!" + typeKey(elem) + "!" + c.Path
+	if c.T != nil && (classify(c.T) == tcPtr || classify(c.T) == tcMap) {
+		heapHoldsRefs[n] = true
+	}
+	return n
+}
+func ptrHeapName(pointee types.Type, c Comp) string {
+	n := "P!" + typeKey(pointee) + "!" + c.Path
+	if c.T != nil && (classify(c.T) == tcPtr || classify(c.T) == tcMap) {
+		heapHoldsRefs[n] = true
+	}
+	return n
+}
 func elemSort(c Comp) string                     { return "(Array Int (Array Int " + c.Sort + "))" }
 func ptrSort(c Comp) string                      { return "(Array Int " + c.Sort + ")" }
 
